@@ -204,8 +204,13 @@ def k_cache(ctx, hists, results):
             plain = any(c == d + base + ".cpython-312.pyc" for c in cache)
             npyc = sum(1 for c in cache if c.startswith(d + base + ".pyccolo") and c.endswith(".pyc"))
             npkl = sum(1 for c in cache if c.startswith(d + base + ".pyccolo") and c.endswith(".pkl"))
-            obs.append([same, [plain, npyc, npkl]])
+            # the flag is observed through the events of the module: a process whose import raises before the module delivers anything
+            # (pk/a.py raises on its first line) shows the same - empty - stream whatever code was loaded; the flag is then not observable
+            vacuous = bool(st.get("raises")) and not [e for e in a["events"] + b["events"] if e[1] == f]
+            obs.append([None if vacuous and same else same, [plain, npyc, npkl]])
         mod = [[x[0] is True or x[0] == "true", [x[1][0] is True or x[1][0] == "true", x[1][1], x[1][2]]] for x in m]
+        if len(mod) == len(obs):
+            obs = [[mo[0] if ob[0] is None else ob[0], ob[1]] for mo, ob in zip(mod, obs)]
         if mod != obs:
             bad.append({"history": h, "module": f, "model": mod, "observed": obs})
         else:
